@@ -95,7 +95,7 @@ type c05Stream struct{}
 func (c05Stream) Name() string               { return "c05" }
 func (c05Stream) CaseTimeout() time.Duration { return 60 * time.Second }
 func (c05Stream) Rule() string {
-	return "one real server, one client connection (plain / TLS listener / StartTLS-upgraded), N pipelined search requests (N 2..400) whose handlers rendezvous and then each write K entries of S bytes (S from 10 bytes to 1 MiB, i.e. far beyond the 4 KiB write buffer) plus a SearchDone, with fast or slow readers and GOMAXPROCS 1..16; in one case of four one search stays open for 1.5 s after its entries (they must arrive without waiting for its SearchDone); in one case of eight the client sends its searches and an Unbind and starts reading 300 ms later (every frame must still arrive before the hang-up); in one case of six the client keeps the pipeline full and Stop is called after the third frame (then every frame up to the hang-up must still be whole and in per-writer order, the notice of disconnection included); oracle: the received stream splits into whole LDAPMessages, exactly one per successful Write, per-writer order preserved, nothing duplicated or lost; the hook trace (locked/written/flushed/unlock) is replayed through the Lean writer model; non-trivial = N >= 2 writers overlapping in time, distinct by scenario"
+	return "one real server, one client connection (plain / TLS listener / StartTLS-upgraded), N pipelined search requests (N 2..400) whose handlers rendezvous and then each write K entries of S bytes (S from 10 bytes to 1 MiB, i.e. far beyond the 4 KiB write buffer) plus a SearchDone, with fast or slow readers and GOMAXPROCS 1..16; in one case of four one search stays open for 1.5 s after its entries (they must arrive without waiting for its SearchDone); in one case of eight the client sends its searches and an Unbind and starts reading 300 ms later (every frame must still arrive before the hang-up); in one case of ten the server has a write timeout and the client stalls past it in the middle of the answers, then reads on (a frame cut short by the timeout may only be the end of the stream, and successful writes = whole frames received); in one case of six the client keeps the pipeline full and Stop is called after the third frame (then every frame up to the hang-up must still be whole and in per-writer order, the notice of disconnection included); oracle: the received stream splits into whole LDAPMessages, exactly one per successful Write, per-writer order preserved, nothing duplicated or lost; the hook trace (locked/written/flushed/unlock) is replayed through the Lean writer model; non-trivial = N >= 2 writers overlapping in time, distinct by scenario"
 }
 
 func (c05Stream) Generate(rng *rand.Rand, n int, thorough bool) []Case {
@@ -119,6 +119,13 @@ func (c05Stream) Generate(rng *rand.Rand, n int, thorough bool) []Case {
 			// the handlers wrote successfully must still arrive before the server hangs up
 			cs = append(cs, Case{Line: fmt.Sprintf("c05 n=%d k=%d size=%d mode=%s slow=1 procs=%d unbind=1", []int{4, 8}[rng.Intn(2)], 3+rng.Intn(3),
 				[]int{20000, 100000}[rng.Intn(2)], modes[rng.Intn(4)], []int{2, 4, 16}[rng.Intn(3)]), Kind: "unbind"})
+			continue
+		}
+		if rng.Intn(10) == 0 {
+			// a server with a write timeout and a client that stalls past it in the middle of the answers and then
+			// reads on: whatever a timed-out Write left on the wire may only be the very end of the stream
+			cs = append(cs, Case{Line: fmt.Sprintf("c05 n=%d k=%d size=%d mode=plain slow=0 procs=%d wtimeout=%d", []int{2, 4, 8}[rng.Intn(3)], 30+rng.Intn(30),
+				[]int{50000, 100000}[rng.Intn(2)], []int{2, 4, 16}[rng.Intn(3)], 300+rng.Intn(200)), Kind: "wtimeout"})
 			continue
 		}
 		if rng.Intn(6) == 0 {
@@ -169,7 +176,12 @@ func (c05Stream) Impl(c Case) string {
 		}
 		_ = w.Write(r.NewSearchDoneResponse(gldap.WithResponseCode(gldap.ResultSuccess)))
 	})
-	sut, err := startServer(mux, serverTLSFor(mode), nil)
+	var extra []gldap.Option
+	wtimeout := atoi(p["wtimeout"])
+	if wtimeout > 0 {
+		extra = append(extra, gldap.WithWriteTimeout(time.Duration(wtimeout)*time.Millisecond))
+	}
+	sut, err := startServer(mux, serverTLSFor(mode), nil, extra...)
 	if err != nil {
 		return "harness-error start: " + err.Error()
 	}
@@ -208,6 +220,61 @@ func (c05Stream) Impl(c Case) string {
 		time.Sleep(300 * time.Millisecond)
 	}
 	lateCheck := false
+	if wtimeout > 0 {
+		// read a few frames, stall until the write deadline has long passed, then read everything that still comes
+		verdict = "ok"
+		stalled := false
+		for {
+			to := 1500 * time.Millisecond
+			f, err := cl.readFrame(to)
+			if err != nil {
+				if len(cl.buf) > 0 {
+					// a partial frame: legitimate only as the very end of the stream (a Write that timed out), which it
+					// is, since nothing followed it within the timeout
+				}
+				break
+			}
+			frames++
+			if frames == 3 && !stalled {
+				stalled = true
+				time.Sleep(time.Duration(wtimeout+700) * time.Millisecond)
+			}
+			v := strictView(f)
+			var id int64
+			if strings.HasPrefix(v, "entry ") {
+				var dn string
+				fmt.Sscanf(v, "entry id=%d dn=%s", &id, &dn)
+				want := hx([]byte(fmt.Sprintf("w%d-%d", id, next[id])))
+				if dn != want || !strings.Contains(v, hx([]byte(payload))) {
+					verdict = fmt.Sprintf("writer %d: frame out of order, duplicated, torn or foreign after a write timeout: dn=%s want %s", id, dn, want)
+					break
+				}
+				next[id]++
+			} else if strings.HasPrefix(v, "result ") {
+				var tag, code int
+				fmt.Sscanf(v, "result id=%d tag=%d code=%d", &id, &tag, &code)
+				if tag != 5 || next[id] != k {
+					verdict = fmt.Sprintf("writer %d: done after %d of %d entries (tag %d)", id, next[id], k, tag)
+					break
+				}
+			} else {
+				verdict = "frame is not a well-formed LDAPMessage (in the middle of the stream, after a write timed out): " + clip(v)
+				break
+			}
+		}
+		if verdict == "ok" {
+			wmu.Lock()
+			for id, cnt := range wrote {
+				if cnt != next[id] {
+					verdict = fmt.Sprintf("writer %d: %d successful writes but %d whole frames received", id, cnt, next[id])
+				}
+			}
+			wmu.Unlock()
+		}
+		cl.close()
+		sut.finish()
+		return verdict + "\t" + traceString(sut.tr.Snapshot(), "w.")
+	}
 	for stopMode || done < n {
 		if p["nodone"] == "1" && !stopMode && done == n-1 && !lateCheck {
 			// every other search is finished; the open one's entries must all be here by now (its handler sleeps)
